@@ -10,7 +10,7 @@ package main
 // is made (the feeder's "select", a worker's "start"/"ok" before it receives, the feeder's "wait")
 // and the scheduler derives from the recorded trace who can proceed: a send needs a worker that is
 // inside its receive, the Done arm needs a cancelled context, `range in` ends only after the close,
-// g.Wait returns only after every worker has left.  No time-out decides anything; the 20 s
+// g.Wait returns only after every worker has left.  No time-out decides anything; the 8 s
 // watchdog only turns a goroutine that never reaches its next hook into a reported problem.
 //
 // The recorded events (parent cancellation, rendezvous with worker w, break, end of the loop,
@@ -19,6 +19,7 @@ package main
 // must be what the function returned and what the workers really completed.
 
 import (
+	"bytes"
 	"context"
 	"errors"
 	"fmt"
@@ -103,7 +104,9 @@ type poolStore struct {
 	chunks map[desync.ChunkID][]byte
 	calls  *poolCalls
 	sched  *poolSched
-	stores int // successful StoreChunk calls
+	stores int              // successful StoreChunk calls
+	stored []desync.ChunkID // IDs for which StoreChunk returned nil
+	had    []desync.ChunkID // IDs for which HasChunk returned true
 }
 
 func (s *poolStore) tick(op string) bool {
@@ -138,6 +141,9 @@ func (s *poolStore) HasChunk(id desync.ChunkID) (bool, error) {
 	}
 	s.mu.Lock()
 	_, ok := s.chunks[id]
+	if ok {
+		s.had = append(s.had, id)
+	}
 	s.mu.Unlock()
 	return ok, nil
 }
@@ -152,6 +158,7 @@ func (s *poolStore) StoreChunk(c *desync.Chunk) error {
 	}
 	s.mu.Lock()
 	s.chunks[c.ID()] = append([]byte{}, b...)
+	s.stored = append(s.stored, c.ID())
 	s.stores++
 	s.mu.Unlock()
 	return nil
@@ -187,7 +194,7 @@ func (b *poolBar) Write(p []byte) (int, error) { return len(p), nil }
 // poolCase is everything that determines a run except Go's own choices (which arm a select with
 // two ready arms takes, which of several receiving workers gets the job)
 type poolCase struct {
-	fn      string // VerifyIndex | ChopFile | Copy
+	fn      string // VerifyIndex | ChopFile | Copy | ChunkStream | PlanValidate
 	n       int
 	nch     int
 	dup     bool
@@ -203,29 +210,36 @@ type poolCase struct {
 }
 
 type poolRun struct {
-	events   []string
-	enabled  []string // before every event and at the end: what the code can do next, as the scheduler knows it
-	raw      []string
-	order    []int
-	jobs     int
-	good     []bool // VerifyIndex: which batches validate
-	err      error
-	pre      bool // the function returned before its pool was started
-	problem  string
-	done     []bool
-	tags     []string
-	stored   map[desync.ChunkID][]byte
-	ids      []desync.ChunkID
-	data     map[desync.ChunkID][]byte
-	uniq     bool
-	preIDs   map[desync.ChunkID]bool
-	failed   int
-	barIncs  int
-	barAdds  int
-	recvs    int
-	sizes    []int // chunks per job
-	matches  bool  // VerifyIndex: the file is what the index describes
-	canceled bool
+	events      []string
+	enabled     []string // before every event and at the end: what the code can do next, as the scheduler knows it
+	raw         []string
+	order       []int
+	jobs        int
+	good        []bool // VerifyIndex: which batches validate
+	err         error
+	pre         bool // the function returned before its pool was started
+	problem     string
+	done        []bool
+	tags        []string
+	stored      map[desync.ChunkID][]byte
+	ids         []desync.ChunkID
+	data        map[desync.ChunkID][]byte
+	uniq        bool
+	preIDs      map[desync.ChunkID]bool
+	failed      int
+	barIncs     int
+	barAdds     int
+	recvs       int
+	sizes       []int // chunks per job
+	matches     bool  // VerifyIndex: the file is what the index describes
+	canceled    bool
+	csEvents    []string // ChopFile / ChunkStream: the events of the machine with ChunkStorage jobs (Model/PoolCS.lean)
+	csOK        bool     // they are complete (no job failed outside StoreChunk)
+	storedL     []desync.ChunkID
+	hadL        []desync.ChunkID
+	seedInvalid bool         // PlanValidate: the seed was marked invalid
+	index       desync.Index // ChunkStream: the index it returned
+	want        desync.Index // the index of the input
 }
 
 // the batches VerifyIndex hands out (the harness' own arithmetic; the driver checks every batch
@@ -245,6 +259,10 @@ func poolBatches(c, n int) [][2]int {
 
 var poolWorkDir string
 
+// poolHangs counts runs in which a resumed goroutine never reached its next hook; after three of them
+// the remaining scheduled runs are skipped (every one costs the watchdog's time)
+var poolHangs int
+
 func runPoolCase(pc poolCase, rng *rand.Rand) poolRun {
 	res := poolRun{}
 	dir := poolWorkDir
@@ -258,7 +276,42 @@ func runPoolCase(pc poolCase, rng *rand.Rand) poolRun {
 		dir = d
 	}
 	drng := rand.New(rand.NewSource(pc.dseed))
-	blob, idx, data := makeBlob(drng, pc.nch, pc.dup)
+	var blob []byte
+	var idx desync.Index
+	var data map[desync.ChunkID][]byte
+	if pc.fn == "ChunkStream" {
+		// a stream of roughly nch chunks; with dup, runs of zeros (equal chunks: ChunkStorage marks them once)
+		blob = randBytes(drng, pc.nch*70)
+		if pc.dup && len(blob) > 0 {
+			for k := 0; k < 1+drng.Intn(2); k++ {
+				at, l := drng.Intn(len(blob)), 128*(1+drng.Intn(4))
+				for i := at; i < at+l && i < len(blob); i++ {
+					blob[i] = 0
+				}
+			}
+		}
+		data = map[desync.ChunkID][]byte{}
+		ck, err := desync.NewChunker(bytes.NewReader(blob), 48, 64, 128)
+		if err != nil {
+			res.problem = "chunker"
+			return res
+		}
+		for {
+			start, b, err := ck.Next()
+			if err != nil {
+				res.problem = "chunker"
+				return res
+			}
+			if len(b) == 0 {
+				break
+			}
+			id := desync.Digest.Sum(b)
+			data[id] = append([]byte{}, b...)
+			idx.Chunks = append(idx.Chunks, desync.IndexChunk{ID: id, Start: start, Size: uint64(len(b))})
+		}
+	} else {
+		blob, idx, data = makeBlob(drng, pc.nch, pc.dup)
+	}
 	res.data = data
 	res.uniq = len(data) == len(idx.Chunks)
 	for _, c := range idx.Chunks {
@@ -287,6 +340,9 @@ func runPoolCase(pc poolCase, rng *rand.Rand) poolRun {
 	file := filepath.Join(dir, "poolblob")
 	content := blob
 	res.matches = true
+	var planRuns [][2]int
+	var plan desync.Plan
+	var planSeed *desync.FileSeed
 	switch pc.fn {
 	case "VerifyIndex":
 		bs := poolBatches(len(idx.Chunks), pc.n)
@@ -308,6 +364,50 @@ func runPoolCase(pc poolCase, rng *rand.Rand) poolRun {
 			content = content[:len(content)-1]
 			res.matches = false
 		}
+	case "PlanValidate":
+		// a seed file: the blob with some chunks replaced by foreign ones; the plan's file-seed segments are
+		// the maximal runs of chunks that were kept, each of them one job
+		var seedBlob []byte
+		var seedIdx desync.Index
+		lo := -1
+		for i, c := range idx.Chunks {
+			b := data[c.ID]
+			kept := drng.Intn(3) != 0
+			if !kept {
+				b = randBytes(drng, 50+drng.Intn(150))
+			}
+			if kept && lo < 0 {
+				lo = i
+			}
+			if !kept && lo >= 0 {
+				planRuns = append(planRuns, [2]int{lo, i})
+				lo = -1
+			}
+			seedIdx.Chunks = append(seedIdx.Chunks, desync.IndexChunk{ID: desync.Digest.Sum(b), Start: uint64(len(seedBlob)), Size: uint64(len(b))})
+			seedBlob = append(seedBlob, b...)
+		}
+		if lo >= 0 {
+			planRuns = append(planRuns, [2]int{lo, len(idx.Chunks)})
+		}
+		res.jobs = len(planRuns)
+		for _, r := range planRuns {
+			good := !(pc.bad >= r[0] && pc.bad < r[1])
+			res.good = append(res.good, good)
+			res.sizes = append(res.sizes, r[1]-r[0])
+			if !good { // damage the seed file (not its index) inside the chunk
+				c := seedIdx.Chunks[pc.bad]
+				seedBlob[int(c.Start)+drng.Intn(int(c.Size))] ^= byte(1 + drng.Intn(255))
+				res.matches = false
+			}
+		}
+		content = seedBlob
+		fseed, err := desync.NewIndexSeed(filepath.Join(dir, "pooldst"), file, seedIdx)
+		if err != nil {
+			res.problem = "seed"
+			return res
+		}
+		planSeed = fseed
+		plan = desync.NewSeedSequencer(idx, fseed).Plan()
 	default:
 		res.jobs = len(idx.Chunks)
 	}
@@ -388,9 +488,26 @@ func runPoolCase(pc poolCase, rng *rand.Rand) poolRun {
 		}
 		return strings.Join(out, "+")
 	}
+	cs := pc.fn == "ChopFile" || pc.fn == "ChunkStream"
+	res.csOK = cs
+	unmarked := map[desync.ChunkID]bool{}
+	lastCall := make([]string, pc.n) // the store call a worker's job has reached: "" | "has" | "store"
+	csEmit := func(ev string) {
+		if cs {
+			res.csEvents = append(res.csEvents, ev)
+		}
+	}
 	emit := func(ev string) {
 		res.enabled = append(res.enabled, enabledNow())
 		res.events = append(res.events, ev)
+		// the same moments in the machine with ChunkStorage jobs, which sees a job's end as mark / has / store events
+		if !strings.HasPrefix(ev, "ok:") && !strings.HasPrefix(ev, "fail:") {
+			if i := strings.Index(ev, ":"); i >= 0 && strings.HasPrefix(ev, "fs:") {
+				csEmit(strings.Join(strings.Split(ev, ":")[:2], ":"))
+			} else {
+				csEmit(ev)
+			}
+		}
 	}
 	if pc.cancel == 0 || (pc.forcing && len(pc.forced) > 0 && pc.forced[0] == -2) {
 		emit("pc")
@@ -402,6 +519,7 @@ func runPoolCase(pc poolCase, rng *rand.Rand) poolRun {
 	}
 	finished := make(chan struct{})
 	var finalErr error
+	var streamIndex desync.Index
 	go func() {
 		var err error
 		switch pc.fn {
@@ -409,6 +527,13 @@ func runPoolCase(pc poolCase, rng *rand.Rand) poolRun {
 			err = desync.VerifyIndex(ctx, file, idx, pc.n, bar)
 		case "ChopFile":
 			err = desync.ChopFile(ctx, file, idx.Chunks, target, pc.n, bar)
+		case "PlanValidate":
+			err = plan.Validate(ctx, pc.n, bar)
+		case "ChunkStream":
+			var ck desync.Chunker
+			if ck, err = desync.NewChunker(bytes.NewReader(blob), 48, 64, 128); err == nil {
+				streamIndex, err = desync.ChunkStream(ctx, ck, target, pc.n)
+			}
 		default:
 			err = desync.Copy(ctx, res.ids, source, target, pc.n, bar)
 		}
@@ -418,7 +543,7 @@ func runPoolCase(pc poolCase, rng *rand.Rand) poolRun {
 		}
 		close(finished)
 	}()
-	watchdog := time.After(20 * time.Second)
+	watchdog := time.After(8 * time.Second)
 	wait := func() (poolArr, bool) {
 		select {
 		case a := <-s.arrive:
@@ -453,7 +578,12 @@ func runPoolCase(pc poolCase, rng *rand.Rand) poolRun {
 		select {
 		case <-finished:
 			res.err = finalErr
+			res.index = streamIndex
 		default:
+		}
+		res.want = idx
+		if planSeed != nil {
+			res.seedInvalid = planSeed.IsInvalid()
 		}
 		res.canceled = parentCancelled
 		target.mu.Lock()
@@ -463,11 +593,18 @@ func runPoolCase(pc poolCase, rng *rand.Rand) poolRun {
 		}
 		target.mu.Unlock()
 		res.failed = calls.failed
+		target.mu.Lock()
+		res.storedL = append([]desync.ChunkID{}, target.stored...)
+		res.hadL = append([]desync.ChunkID{}, target.had...)
+		target.mu.Unlock()
 		res.barIncs, res.barAdds = bar.incs, bar.adds
 		return res
 	}
 	fail := func(format string, a ...interface{}) poolRun {
 		res.problem = fmt.Sprintf(format, a...)
+		if strings.HasPrefix(res.problem, "hang") {
+			poolHangs++
+		}
 		return finish()
 	}
 
@@ -669,6 +806,9 @@ func runPoolCase(pc poolCase, rng *rand.Rand) poolRun {
 				if ctxDone {
 					res.tags = append(res.tags, "pool-select:send-although-done")
 				}
+				if pc.fn == "PlanValidate" && !(sends < len(planRuns) && planRuns[sends][0] == selPayload && planRuns[sends][1]-planRuns[sends][0] == b.job) {
+					return fail("protocol: job %d is the segment of %d chunks from chunk %d; the kept runs of the seed are %v", sends, b.job, selPayload, planRuns)
+				}
 				ev := fmt.Sprintf("fs:%d", b.actor)
 				if pc.fn == "VerifyIndex" {
 					ev = fmt.Sprintf("fs:%d:%d:%d", b.actor, selPayload, b.job)
@@ -754,8 +894,28 @@ func runPoolCase(pc poolCase, rng *rand.Rand) poolRun {
 				return fail("scheduler: resumed worker %d, but %d.%s arrived", w, a.actor, a.ev)
 			}
 			switch {
+			case a.ev == "call:has":
+				if lastCall[w] != "" {
+					res.csOK = false
+				}
+				csEmit(fmt.Sprintf("mark:%d", w)) // markProcessed said: first
+				lastCall[w] = "has"
+				if cs && holds[w] >= 0 && holds[w] < len(res.ids) && unmarked[res.ids[holds[w]]] {
+					res.tags = append(res.tags, "poolcs-shape:chunk-marked-again-after-a-failed-store")
+				}
+			case a.ev == "call:store":
+				if lastCall[w] != "has" {
+					res.csOK = false
+				}
+				csEmit(fmt.Sprintf("hasF:%d", w))
+				lastCall[w] = "store"
 			case strings.HasPrefix(a.ev, "call:"):
 			case a.ev == "ok":
+				csEmit(fmt.Sprintf("%s:%d", map[string]string{"": "mark", "has": "hasT", "store": "stO"}[lastCall[w]], w))
+				if cs && lastCall[w] == "" {
+					res.tags = append(res.tags, "poolcs-shape:job-ended-at-a-chunk-already-marked")
+				}
+				lastCall[w] = ""
 				emit(fmt.Sprintf("ok:%d", w))
 				if holds[w] >= 0 && holds[w] < len(res.done) {
 					res.done[holds[w]] = true
@@ -764,6 +924,15 @@ func runPoolCase(pc poolCase, rng *rand.Rand) poolRun {
 				ws[w] = "idle"
 			case a.ev == "fail":
 				ws[w] = "fail"
+				switch lastCall[w] {
+				case "store": // the deferred un-mark has run already: other workers see the ID unmarked from here on
+					csEmit(fmt.Sprintf("stE:%d", w))
+					if cs && holds[w] >= 0 && holds[w] < len(res.ids) {
+						unmarked[res.ids[holds[w]]] = true
+					}
+				case "":
+					res.csOK = false // the job failed outside ChunkStorage.StoreChunk
+				}
 			default:
 				return fail("protocol: worker %d inside a job did %s", w, a.ev)
 			}
@@ -775,6 +944,9 @@ func runPoolCase(pc poolCase, rng *rand.Rand) poolRun {
 				res.tags = append(res.tags, "pool-shape:worker-failure-after-the-loop")
 			}
 			emit(fmt.Sprintf("fail:%d", w))
+			if lastCall[w] == "has" {
+				csEmit(fmt.Sprintf("hasE:%d", w))
+			}
 			s.resume[w] <- struct{}{}
 			ws[w] = "gone"
 			// the worker returns its error and errgroup cancels the derived context: wait for that
@@ -836,9 +1008,12 @@ func poolCaseLine(pc poolCase, r poolRun) string {
 	if r.pre {
 		sb.WriteString(" pre=err")
 	}
-	if pc.fn == "VerifyIndex" {
+	switch pc.fn {
+	case "VerifyIndex":
 		fmt.Fprintf(&sb, " chunks=%d good=%s", pc.nch, poolDoneStr(r.good))
-	} else {
+	case "PlanValidate":
+		fmt.Fprintf(&sb, " jobs=%d good=%s", r.jobs, poolDoneStr(r.good))
+	default:
 		fmt.Fprintf(&sb, " jobs=%d", r.jobs)
 	}
 	fmt.Fprintf(&sb, " events=%s", strings.Join(r.events, ","))
@@ -857,6 +1032,43 @@ func poolAnswer(r poolRun) string {
 		return "accept result=" + poolResultStr(r.err) + " done="
 	}
 	return "accept result=" + poolResultStr(r.err) + " done=" + poolDoneStr(r.done)
+}
+
+// poolCSLine / poolCSAnswer: the same run seen by the machine with ChunkStorage jobs (ChopFile, ChunkStream)
+func poolCSNumbers(r poolRun) map[desync.ChunkID]int {
+	num := map[desync.ChunkID]int{}
+	for _, id := range r.ids {
+		if _, ok := num[id]; !ok {
+			num[id] = len(num)
+		}
+	}
+	return num
+}
+
+func poolCSLine(pc poolCase, r poolRun) string {
+	num := poolCSNumbers(r)
+	ids := make([]string, len(r.ids))
+	for j, id := range r.ids {
+		ids[j] = strconv.Itoa(num[id])
+	}
+	return fmt.Sprintf("poolcs.accept fn=%s ids=%s n=%d events=%s", pc.fn, strings.Join(ids, ","), pc.n, strings.Join(r.csEvents, ","))
+}
+
+func poolCSAnswer(r poolRun) string {
+	num := poolCSNumbers(r)
+	set := func(l []desync.ChunkID) string {
+		seen := map[int]bool{}
+		var xs []int
+		for _, id := range l {
+			if k, ok := num[id]; ok && !seen[k] {
+				seen[k] = true
+				xs = append(xs, k)
+			}
+		}
+		sortInts(xs)
+		return intsStr(xs)
+	}
+	return fmt.Sprintf("accept result=%s done=%s stored=%s had=%s", poolResultStr(r.err), poolDoneStr(r.done), set(r.storedL), set(r.hadL))
 }
 
 // implPoolAccept re-runs the recorded schedule on the real code (replay).  Go's own choices (the arm
@@ -913,6 +1125,29 @@ func poolMonitors(pc poolCase, r poolRun) []string {
 		out = append(out, fmt.Sprintf("%s reported success although not every job was completed (done=%s, cancelled=%v)", pc.fn, poolDoneStr(r.done), r.canceled))
 	}
 	switch pc.fn {
+	case "PlanValidate":
+		if r.err == nil && !r.matches {
+			out = append(out, "Plan.Validate accepted a seed file that does not match its index")
+		}
+		if !r.canceled && r.err != nil && r.matches {
+			out = append(out, "Plan.Validate rejected a matching seed without any cancellation: "+r.err.Error())
+		}
+		failedJob := false
+		for _, e := range r.events {
+			failedJob = failedJob || strings.HasPrefix(e, "fail:")
+		}
+		if failedJob != r.seedInvalid {
+			out = append(out, fmt.Sprintf("Plan.Validate: a job failed = %v, but the seed is marked invalid = %v", failedJob, r.seedInvalid))
+		}
+		want := 0
+		for j, d := range r.done {
+			if d {
+				want += r.sizes[j]
+			}
+		}
+		if r.barAdds != want {
+			out = append(out, fmt.Sprintf("Plan.Validate reported %d validated chunks to the progress bar, the completed segments hold %d", r.barAdds, want))
+		}
 	case "VerifyIndex":
 		if r.err == nil && !r.matches {
 			out = append(out, "VerifyIndex accepted a file that does not match the index")
@@ -939,10 +1174,19 @@ func poolMonitors(pc poolCase, r poolRun) []string {
 				}
 			}
 		}
+		if pc.fn == "ChunkStream" && r.err == nil {
+			same := len(r.index.Chunks) == len(r.want.Chunks)
+			for i := 0; same && i < len(r.want.Chunks); i++ {
+				same = r.index.Chunks[i] == r.want.Chunks[i]
+			}
+			if !same {
+				out = append(out, "ChunkStream reported success but its index does not describe the input")
+			}
+		}
 		if r.failed > 0 && r.err == nil {
 			out = append(out, pc.fn+" reported success although a store call failed")
 		}
-		if r.barIncs != r.recvs {
+		if pc.fn != "ChunkStream" && r.barIncs != r.recvs {
 			out = append(out, fmt.Sprintf("%s reported %d jobs to the progress bar, the workers received %d", pc.fn, r.barIncs, r.recvs))
 		}
 		// with distinct chunks a job is complete exactly when its chunk is in the target
@@ -973,6 +1217,10 @@ func runPoolTraces(cfg Config, rep *Report, fns []string, runs int, salt int64) 
 	poolWorkDir = cfg.Work
 	rng := rand.New(rand.NewSource(cfg.Seed*1000003 + salt))
 	for it := 0; it < runs; it++ {
+		if poolHangs >= 3 {
+			rep.Notes = append(rep.Notes, fmt.Sprintf("pool traces: three runs hung; %d of %d scheduled runs not made", runs-it, runs))
+			break
+		}
 		pc := poolCase{fn: fns[it%len(fns)], n: 1 + rng.Intn(5), bad: -1, failAt: -1, cancel: -1, dseed: rng.Int63(), policy: rng.Intn(5)}
 		pc.nch = 1 + rng.Intn(14)
 		if rng.Intn(12) == 0 {
@@ -980,6 +1228,12 @@ func runPoolTraces(cfg Config, rep *Report, fns []string, runs int, salt int64) 
 		}
 		kind := "plain"
 		switch pc.fn {
+		case "PlanValidate":
+			pc.nch = rng.Intn(40)
+			if rng.Intn(2) == 0 && pc.nch > 0 {
+				pc.bad = rng.Intn(pc.nch)
+				kind = "damaged-seed"
+			}
 		case "VerifyIndex":
 			if rng.Intn(2) == 0 {
 				pc.nch = 10 + rng.Intn(70) // batches of several chunks
@@ -1005,8 +1259,11 @@ func runPoolTraces(cfg Config, rep *Report, fns []string, runs int, salt int64) 
 			if rng.Intn(2) == 0 {
 				pc.failAt = rng.Intn(3*pc.nch + 1)
 				pc.failOp = []string{"", "", "has", "store", "get"}[rng.Intn(5)]
-				if pc.fn == "ChopFile" && pc.failOp == "get" {
+				if pc.fn != "Copy" && pc.failOp == "get" {
 					pc.failOp = "store"
+				}
+				if pc.fn != "Copy" && pc.dup && rng.Intn(2) == 0 { // an early failed store of a chunk that occurs again later
+					pc.failOp, pc.failAt = "store", rng.Intn(6)
 				}
 				kind = "store-fault"
 			}
@@ -1016,6 +1273,9 @@ func runPoolTraces(cfg Config, rep *Report, fns []string, runs int, salt int64) 
 			jobs := pc.nch
 			if pc.fn == "VerifyIndex" {
 				jobs = len(poolBatches(pc.nch, pc.n))
+			}
+			if pc.fn == "PlanValidate" {
+				jobs = pc.nch / 4
 			}
 			pc.cancel = rng.Intn(6*jobs + 8)
 		}
@@ -1033,6 +1293,7 @@ func runPoolTraces(cfg Config, rep *Report, fns []string, runs int, salt int64) 
 		}
 		rep.Count(line, len(r.events) > 3, tags...)
 		for _, what := range poolMonitors(pc, r) {
+			rep.Histogram["pool-DISAGREE:monitor"]++
 			rep.Disagree(Disagreement{Kind: "monitor", Case: clip(line, 100000), Impl: got + " raw=" + clip(strings.Join(r.raw, ","), 4000), What: what})
 		}
 		if m.cmd == nil || r.problem != "" {
@@ -1047,8 +1308,22 @@ func runPoolTraces(cfg Config, rep *Report, fns []string, runs int, salt int64) 
 		}
 		if want == got {
 			rep.Traces++
+			// the same run against the machine whose jobs are ChunkStorage.StoreChunk calls
+			if r.csOK && !r.pre {
+				csLine, csGot := poolCSLine(pc, r), poolCSAnswer(r)
+				csWant := m.Ask(csLine)
+				rep.Count(csLine, len(r.csEvents) > 3, "poolcs-fn:"+pc.fn)
+				if csWant == csGot {
+					rep.Traces++
+				} else {
+					rep.Histogram["pool-DISAGREE:correspondence"]++
+					rep.Disagree(Disagreement{Kind: "correspondence", Case: clip(csLine, 100000), Model: clip(csWant, 2000), Impl: clip(csGot, 2000),
+						What: "the event trace of " + pc.fn + " is not a run of the pool machine with ChunkStorage jobs, or result / completed jobs / stored chunks differ (schedule: " + clip(line, 3000) + ")"})
+				}
+			}
 			continue
 		}
+		rep.Histogram["pool-DISAGREE:correspondence"]++
 		rep.Disagree(Disagreement{Kind: "correspondence", Case: clip(line, 100000), Model: clip(want, 2000), Impl: clip(got, 2000),
 			What: "the event trace of " + pc.fn + " is not a run of the pool machine, or the machine's result / completed jobs differ from the function's"})
 	}
